@@ -165,6 +165,12 @@ def streams(ctx):
     # a second start() attempted (in vain) on the running bridge before the traffic
     forms = [dict(gen_sequence(rng, pool), cbform=f) for f in BH.CALLBACK_FORMS[1:] for _ in range(ctx.n(4, 60))]
     ctx.run_cases(SEQ, "callbacks-of-other-kinds-that-only-the-bridge-refers-to", forms, exhaustive=False, sample_every=7)
+    # a bridge that has been running for a while: 150 valid broadcasts in a row through one bridge, every one delivered
+    long = []
+    for _ in range(ctx.n(2, 10)):
+        vs = [rng.choice(pool) for _ in range(150)]
+        long.append({"ports": 1, "arrivals": [(0, v["dgram"], f"valid|{v['family']} {v['fields']}") for v in vs], "fail_on": [], "burst": True})
+    ctx.run_cases(BURST, "150-broadcasts-in-a-row-through-one-bridge", long, exhaustive=False)
     ctx.run_cases(BURST, "bursts-without-anything-in-between", [gen_burst(rng, pool) for _ in range(ctx.n(40, 800))], exhaustive=False,
                   sample_every=19)
 
